@@ -18,7 +18,8 @@ def membershipOf (env : Env) (key : String) : Membership :=
 abbrev SegRec := Segment → List String → Res Bool
 
 /-- A segment-match clause: true iff the context is in at least one referenced segment that exists
-in the store (non-string values and missing segments are skipped); `negate` inverts exactly that.
+in the store (non-string values — an unparsed `J.raw` string included, its type is not the string
+type — and missing segments are skipped); `negate` inverts exactly that.
 Evaluation is left to right and stops at the first member segment or the first error. -/
 def segMatchValues (rec : SegRec) (env : Env) (negate : Bool) (chain : List String) : List J → Res Bool
   | [] => .ok negate
